@@ -1,1 +1,1197 @@
-//! (module owned by one property family; see AGENT_GUIDE.md)
+//! G-workspace / G-history (DESIGN.md §3): small multi-file Lua workspaces and edit histories
+//! for the analysis-state properties C08–C11 (and C38).
+//!
+//! A workspace is 2–8 files under a main root and (optionally) a library root. Every file `i`
+//! has a unique *marker* (`F<i>` / `f<i>`) that prefixes every name only that file declares;
+//! names declared by several files on purpose (split classes, conflicting globals, duplicate
+//! aliases) start with `S`. Files are lists of *chunks* (a doc-comment block plus its
+//! statement, tagged with a construct kind) so that witnesses can be shrunk over files, then
+//! chunks, then lines, and so that signatures can name constructs instead of identifiers.
+//!
+//! Everything here is a deterministic function of the `Rng` passed in.
+
+use crate::rng::Rng;
+use emmylua_code_analysis::{EmmyLuaAnalysis, Emmyrc, FileId, WorkspaceFolder, file_path_to_uri};
+use lsp_types::Uri;
+use serde::{Deserialize, Serialize};
+use std::path::PathBuf;
+use std::sync::Arc;
+
+/// Virtual base directory. Nothing is ever read from or written to it (texts are handed to the
+/// analysis directly), it only has to be an absolute path.
+pub const BASE: &str = "/vw";
+
+#[derive(Clone, Debug, Serialize, Deserialize, PartialEq, Eq)]
+pub struct Chunk {
+    pub kind: String,
+    pub text: String,
+}
+
+#[derive(Clone, Debug, Serialize, Deserialize, PartialEq, Eq)]
+pub struct GenFile {
+    /// path relative to BASE, e.g. `main/pkg/f2.lua`
+    pub path: String,
+    /// 0 = main root, 1 = library root
+    pub root: usize,
+    /// `F2`
+    pub marker: String,
+    /// module name relative to its root, e.g. `pkg.f2`
+    pub module: String,
+    pub chunks: Vec<Chunk>,
+}
+
+impl GenFile {
+    pub fn text(&self) -> String {
+        chunks_text(&self.chunks)
+    }
+    pub fn abs_path(&self) -> String {
+        format!("{BASE}/{}", self.path)
+    }
+    pub fn uri(&self) -> Uri {
+        path_uri(&self.abs_path())
+    }
+    pub fn lower(&self) -> String {
+        self.marker.to_lowercase()
+    }
+}
+
+pub fn chunks_text(chunks: &[Chunk]) -> String {
+    let mut s = String::new();
+    for c in chunks {
+        s.push_str(&c.text);
+        if !c.text.ends_with('\n') {
+            s.push('\n');
+        }
+    }
+    s
+}
+
+pub fn path_uri(abs: &str) -> Uri {
+    file_path_to_uri(&PathBuf::from(abs)).expect("absolute path gives a uri")
+}
+
+#[derive(Clone, Debug, Serialize, Deserialize, PartialEq, Eq)]
+pub struct Workspace {
+    pub files: Vec<GenFile>,
+    /// whether a library root (`BASE/lib`) is registered
+    pub library: bool,
+    /// index into CONFIGS
+    pub config: usize,
+}
+
+/// One step of a G-history. File indices refer to `Workspace::files`.
+#[derive(Clone, Debug, Serialize, Deserialize, PartialEq, Eq)]
+#[serde(tag = "op")]
+pub enum Step {
+    /// `update_file_by_uri(u, Some(current text))`
+    Resubmit { file: usize },
+    /// `update_files_by_uri([...current texts...])`
+    BatchResubmit { files: Vec<usize> },
+    /// `update(u, edited)` then `update(u, current text)`
+    EditRestore { file: usize, edited: Vec<Chunk> },
+    /// `update(u, new text)`; the new text becomes the current text
+    Update { file: usize, chunks: Vec<Chunk> },
+    /// `remove_file_by_uri(u)` (or `update_file_by_uri(u, None)` when `by_none`)
+    Remove { file: usize, by_none: bool },
+    /// `update_file_by_uri(u, Some(current text))` of a removed file
+    ReAdd { file: usize },
+    /// `reindex()`
+    Reindex,
+    /// `update_config(CONFIGS[variant])` alone
+    Config { variant: usize },
+    /// what the language server does on a configuration change: `update_config`, then every
+    /// present file is submitted again in one batch (and therefore parsed again)
+    ConfigReload { variant: usize },
+}
+
+impl Step {
+    pub fn kind(&self) -> &'static str {
+        match self {
+            Step::Resubmit { .. } => "resubmit",
+            Step::BatchResubmit { .. } => "batch-resubmit",
+            Step::EditRestore { .. } => "edit-restore",
+            Step::Update { .. } => "update",
+            Step::Remove { by_none: false, .. } => "remove",
+            Step::Remove { by_none: true, .. } => "remove-by-none",
+            Step::ReAdd { .. } => "re-add",
+            Step::Reindex => "reindex",
+            Step::Config { .. } => "config",
+            Step::ConfigReload { .. } => "config-reload",
+        }
+    }
+}
+
+// ───────────────────────── configuration variants ─────────────────────────
+
+pub const N_CONFIGS: usize = 6;
+
+pub fn config_name(variant: usize) -> &'static str {
+    match variant % N_CONFIGS {
+        0 => "default",
+        1 => "lua51",
+        2 => "strict-require-path",
+        3 => "require-pattern",
+        4 => "no-meta-override",
+        _ => "module-map",
+    }
+}
+
+/// The configuration variants used by G-history `Config` steps.
+pub fn config(variant: usize) -> Arc<Emmyrc> {
+    let j = match variant % N_CONFIGS {
+        0 => serde_json::json!({}),
+        1 => serde_json::json!({"runtime": {"version": "Lua5.1"}}),
+        2 => serde_json::json!({"strict": {"requirePath": true}}),
+        3 => serde_json::json!({"runtime": {"requirePattern": ["?/init.lua", "pkg/?.lua"]}}),
+        4 => serde_json::json!({"strict": {"metaOverrideFileDefine": false, "arrayIndex": false}}),
+        _ => serde_json::json!({"workspace": {"moduleMap": [{"pattern": "^pkg\\.(.*)$", "replace": "$1"}]}}),
+    };
+    let rc: Emmyrc = serde_json::from_value(j).expect("config variant deserialises");
+    Arc::new(rc)
+}
+
+// ───────────────────────── building an analysis ─────────────────────────
+
+#[derive(Clone, Copy, Debug, PartialEq, Eq)]
+pub enum Load {
+    /// set all texts, then analyse in file-id order (what `reindex` and the crate's own
+    /// `update_files_by_uri_sorted` test helper do) — the deterministic "fresh analysis".
+    Sorted,
+    /// the production batch entry point `update_files_by_uri` (C11)
+    Production,
+    /// one `update_file_by_uri` per file, in order (how an editor session grows)
+    OneByOne,
+}
+
+pub fn new_analysis(library: bool, cfg: usize) -> EmmyLuaAnalysis {
+    let mut a = EmmyLuaAnalysis::new();
+    a.update_config(config(cfg));
+    a.add_main_workspace(PathBuf::from(format!("{BASE}/main")));
+    if library {
+        a.add_library_workspace(&WorkspaceFolder::new(PathBuf::from(format!("{BASE}/lib")), true));
+    }
+    a
+}
+
+/// Registers `files` (abs path, text) in the given order and analyses them.
+pub fn load_files(a: &mut EmmyLuaAnalysis, files: &[(String, String)], load: Load) -> Vec<FileId> {
+    match load {
+        Load::Production => {
+            let v: Vec<(Uri, Option<String>)> = files.iter().map(|(p, t)| (path_uri(p), Some(t.clone()))).collect();
+            a.update_files_by_uri(v);
+            files.iter().filter_map(|(p, _)| a.get_file_id(&path_uri(p))).collect()
+        }
+        Load::OneByOne => files.iter().filter_map(|(p, t)| a.update_file_by_uri(&path_uri(p), Some(t.clone()))).collect(),
+        Load::Sorted => {
+            let mut ids = Vec::new();
+            for (p, t) in files {
+                let id = a.compilation.get_db_mut().get_vfs_mut().set_file_content(&path_uri(p), Some(t.clone()));
+                ids.push(id);
+            }
+            let mut sorted = ids.clone();
+            sorted.sort();
+            sorted.dedup();
+            a.compilation.remove_index(sorted.clone());
+            a.compilation.update_index(sorted);
+            ids
+        }
+    }
+}
+
+impl Workspace {
+    pub fn file_list(&self) -> Vec<(String, String)> {
+        self.files.iter().map(|f| (f.abs_path(), f.text())).collect()
+    }
+    pub fn build(&self, load: Load) -> EmmyLuaAnalysis {
+        let mut a = new_analysis(self.library, self.config);
+        load_files(&mut a, &self.file_list(), load);
+        a
+    }
+    pub fn n_chunks(&self) -> usize {
+        self.files.iter().map(|f| f.chunks.len()).sum()
+    }
+    /// sorted, de-duplicated construct kinds present (for signatures)
+    pub fn kinds(&self) -> Vec<String> {
+        let mut k: Vec<String> = self.files.iter().flat_map(|f| f.chunks.iter().map(|c| c.kind.clone())).collect();
+        k.sort();
+        k.dedup();
+        k
+    }
+    pub fn fingerprint(&self) -> u64 {
+        let mut h = crate::rng::fnv(format!("{}|{}", self.library, self.config).as_bytes());
+        for f in &self.files {
+            h = crate::rng::mix(h, crate::rng::fnv(f.path.as_bytes()));
+            h = crate::rng::mix(h, crate::rng::fnv(f.text().as_bytes()));
+        }
+        h
+    }
+}
+
+/// The logical state a history has reached: current chunks per file (None = removed) and config.
+#[derive(Clone, Debug)]
+pub struct Model {
+    pub cur: Vec<Option<Vec<Chunk>>>,
+    pub config: usize,
+}
+
+impl Model {
+    pub fn new(ws: &Workspace) -> Self {
+        Model { cur: ws.files.iter().map(|f| Some(f.chunks.clone())).collect(), config: ws.config }
+    }
+    pub fn present(&self, i: usize) -> bool {
+        self.cur.get(i).map(|c| c.is_some()).unwrap_or(false)
+    }
+    pub fn text(&self, i: usize) -> Option<String> {
+        self.cur.get(i).and_then(|c| c.as_ref()).map(|c| chunks_text(c))
+    }
+}
+
+/// Applies one step to the real analysis and to the model. Steps that do not apply in the
+/// current state (e.g. re-submitting a removed file — possible after shrinking) are skipped and
+/// `false` is returned.
+pub fn apply_step(a: &mut EmmyLuaAnalysis, ws: &Workspace, m: &mut Model, step: &Step) -> bool {
+    match step {
+        Step::Resubmit { file } => {
+            let Some(t) = m.text(*file) else { return false };
+            a.update_file_by_uri(&ws.files[*file].uri(), Some(t));
+            true
+        }
+        Step::BatchResubmit { files } => {
+            let v: Vec<(Uri, Option<String>)> = files.iter().filter_map(|i| m.text(*i).map(|t| (ws.files[*i].uri(), Some(t)))).collect();
+            if v.is_empty() {
+                return false;
+            }
+            a.update_files_by_uri(v);
+            true
+        }
+        Step::EditRestore { file, edited } => {
+            let Some(t) = m.text(*file) else { return false };
+            let u = ws.files[*file].uri();
+            a.update_file_by_uri(&u, Some(chunks_text(edited)));
+            a.update_file_by_uri(&u, Some(t));
+            true
+        }
+        Step::Update { file, chunks } => {
+            if !m.present(*file) {
+                return false;
+            }
+            a.update_file_by_uri(&ws.files[*file].uri(), Some(chunks_text(chunks)));
+            m.cur[*file] = Some(chunks.clone());
+            true
+        }
+        Step::Remove { file, by_none } => {
+            if !m.present(*file) {
+                return false;
+            }
+            let u = ws.files[*file].uri();
+            if *by_none {
+                a.update_file_by_uri(&u, None);
+            } else {
+                a.remove_file_by_uri(&u);
+            }
+            m.cur[*file] = None;
+            true
+        }
+        Step::ReAdd { file } => {
+            if m.present(*file) || *file >= ws.files.len() {
+                return false;
+            }
+            let chunks = ws.files[*file].chunks.clone();
+            a.update_file_by_uri(&ws.files[*file].uri(), Some(chunks_text(&chunks)));
+            m.cur[*file] = Some(chunks);
+            true
+        }
+        Step::Reindex => {
+            a.reindex();
+            true
+        }
+        Step::Config { variant } => {
+            a.update_config(config(*variant));
+            m.config = *variant;
+            true
+        }
+        Step::ConfigReload { variant } => {
+            a.update_config(config(*variant));
+            m.config = *variant;
+            let v: Vec<(Uri, Option<String>)> = (0..ws.files.len()).filter_map(|i| m.text(i).map(|t| (ws.files[i].uri(), Some(t)))).collect();
+            a.update_files_by_uri(v);
+            true
+        }
+    }
+}
+
+// ───────────────────────── chunk templates ─────────────────────────
+
+pub const N_SHARED: usize = 2;
+
+/// What a chunk may refer to: the file's own marker, the markers/modules of all files.
+pub struct GenCtx {
+    pub markers: Vec<String>,
+    pub modules: Vec<String>,
+    pub in_lib: Vec<bool>,
+}
+
+fn lit(rng: &mut Rng) -> &'static str {
+    rng.pick(&["1", "\"s\"", "{ a = 1 }", "true", "1.5", "{ 1, 2 }", "nil", "function() return 1 end"])
+}
+
+fn ty(rng: &mut Rng) -> &'static str {
+    rng.pick(&["integer", "string", "number", "boolean", "string[]", "integer|string", "table<string, integer>", "fun(a: integer): string", "integer?"])
+}
+
+pub const KINDS: &[&str] = &[
+    "class-own",
+    "class-method",
+    "class-self-field",
+    "class-shared",
+    "class-shared-global",
+    "class-sub",
+    "global-conflict",
+    "global-read",
+    "global-own",
+    "func-own",
+    "call-other",
+    "use-class",
+    "use-shared",
+    "require",
+    "alias-own",
+    "alias-shared",
+    "enum-own",
+    "enum-use",
+    "operator",
+    "diag-next-line",
+    "diag-disable-block",
+    "bad-type",
+    "undefined",
+    "generic-class",
+    "deprecated",
+    "overload",
+    "table-global",
+    "table-extend",
+    "control-flow",
+    "setmetatable",
+    "type-other-field",
+    "version-syntax",
+];
+
+/// One chunk of construct `kind` for file `me`; `n` makes the names it declares unique in the file.
+pub fn chunk(rng: &mut Rng, g: &GenCtx, me: usize, n: usize, kind: &str) -> Chunk {
+    let up = g.markers[me].clone();
+    let lo = up.to_lowercase();
+    // a library never depends on the main workspace (it is analysed before it on purpose)
+    let allowed: Vec<usize> = (0..g.markers.len()).filter(|i| !g.in_lib[me] || g.in_lib[*i]).collect();
+    let other = rng.pick(&allowed);
+    let oup = g.markers[other].clone();
+    let olo = oup.to_lowercase();
+    let sh = rng.below(N_SHARED);
+    // names shared between files: `S…` among main files, `L…` among library files (main files
+    // may use the library's, never the other way round)
+    let declares = matches!(kind, "class-shared" | "class-shared-global" | "global-conflict" | "alias-shared");
+    let sp = if g.in_lib[me] || (!declares && g.in_lib.iter().any(|l| *l) && rng.chance(1, 4)) { "L" } else { "S" };
+    let text = match kind {
+        "class-own" => {
+            let bind = if rng.bool() { format!("{up}Cls = {{}}") } else { format!("local {lo}_cls{n} = {{}}") };
+            format!("--- Class {up}Cls documented in {lo} #{lo}#\n---@class {up}Cls\n---@field {lo}_a integer field a of {up}Cls\n---@field {lo}_b {}\n---@field {lo}_opt? boolean\n{bind}\n", ty(rng))
+        }
+        "class-method" => format!(
+            "--- method {lo}_m of {up}Cls #{lo}#\n---@param x integer\n---@return string\nfunction {up}Cls:{lo}_m(x) return tostring(x) .. self.{lo}_b end\n"
+        ),
+        "class-self-field" => format!("function {up}Cls:{lo}_init{n}()\n  self.{lo}_dyn{n} = {}\nend\n", lit(rng)),
+        "class-shared" => {
+            let partial = if rng.chance(1, 3) { "(partial) " } else { "" };
+            let sup = if rng.chance(1, 4) { format!(": {oup}Cls") } else { String::new() };
+            let desc = if rng.chance(3, 4) { format!("--- {sp}Cls{sh} described by {lo} #{lo}#\n") } else { String::new() };
+            let bind = match rng.below(3) {
+                0 => format!("local {lo}_sc{n} = {{}}\n"),
+                _ => String::new(),
+            };
+            let op = if rng.chance(1, 3) { format!("---@operator add({sp}Cls{sh}): {sp}Cls{sh}\n---@operator call(integer): string\n") } else { String::new() };
+            format!("{desc}---@class {partial}{sp}Cls{sh}{sup}\n{op}---@field {lo}_s{n} integer only in {lo}\n---@field s_common {}\n{bind}", ty(rng))
+        }
+        "class-shared-global" => format!(
+            "--- {sp}Cls{sh} as a global table, from {lo} #{lo}#\n---@class {sp}Cls{sh}\n{sp}Cls{sh} = {{}}\n--- shared method from {lo} #{lo}#\nfunction {sp}Cls{sh}:{lo}_sm{n}() return {} end\n",
+            lit(rng)
+        ),
+        "class-sub" => format!("--- {up}Sub{n} extends a class of {olo} #{lo}#\n---@class {up}Sub{n}: {oup}Cls\n---@field {lo}_sub{n} string\n---@type {up}Sub{n}\nlocal {lo}_subv{n}\nlocal {lo}_subx{n} = {lo}_subv{n}.{olo}_a\n"),
+        "global-conflict" => {
+            let doc = match rng.below(4) {
+                0 => format!("--- {sp}G{sh} doc from {lo} #{lo}#\n"),
+                1 => format!("---@type {}\n", ty(rng)),
+                _ => String::new(),
+            };
+            format!("{doc}{sp}G{sh} = {}\n", lit(rng))
+        }
+        "global-read" => format!("local {lo}_t{n} = {sp}G{sh}\n"),
+        "global-own" => format!("--- global {up}_G of {lo} #{lo}#\n{up}_G = {}\nlocal {lo}_gr{n} = {up}_G\n", lit(rng)),
+        "func-own" => format!("--- does things ({lo}) #{lo}#\n---@param a integer\n---@param b? {}\n---@return string\nfunction {up}_fn(a, b) return tostring(a) end\n", ty(rng)),
+        "call-other" => format!("local {lo}_r{n} = {oup}_fn({})\nlocal {lo}_g{n} = {oup}_G\n", lit(rng)),
+        "use-class" => format!("---@type {oup}Cls\nlocal {lo}_o{n}\nlocal {lo}_x{n} = {lo}_o{n}.{olo}_a\nlocal {lo}_y{n} = {lo}_o{n}:{olo}_m(1)\nlocal {lo}_z{n} = {lo}_o{n}.{olo}_b\n"),
+        "use-shared" => format!("---@type {sp}Cls{sh}\nlocal {lo}_so{n}\nlocal {lo}_q{n} = {lo}_so{n}.s_common\nlocal {lo}_w{n} = {lo}_so{n}.{olo}_s1\nlocal {lo}_k{n} = {lo}_so{n}:{olo}_sm2()\nlocal {lo}_p{n} = {lo}_so{n} + {lo}_so{n}\nlocal {lo}_c{n} = {lo}_so{n}(1)\n"),
+        "require" => {
+            let m = g.modules[other].clone();
+            format!("local {lo}_m{n} = require(\"{m}\")\nlocal {lo}_mv{n} = {lo}_m{n}.{olo}_val\n")
+        }
+        "alias-own" => format!("--- alias of {lo} #{lo}#\n---@alias {up}Alias integer|string\n---@type {up}Alias\nlocal {lo}_al{n} = 1\n"),
+        "alias-shared" => {
+            // half of the time the alias body carries the marker of the declaring file (a string
+            // literal type), so that an alias body surviving its file is recognisable (C10)
+            let body = if rng.bool() { format!("{}|\"#{lo}#\"", rng.pick(&["integer", "string", "boolean"])) } else { ty(rng).to_string() };
+            format!("--- {sp}Alias{sh} from {lo} #{lo}#\n---@alias {sp}Alias{sh} {body}\n---@type {sp}Alias{sh}\nlocal {lo}_sal{n}\n")
+        }
+        "enum-own" => format!("--- enum of {lo} #{lo}#\n---@enum {up}Enum\n{up}Enum = {{\n  {lo}_A = 1,\n  --- second value #{lo}#\n  {lo}_B = 2,\n}}\nlocal {lo}_e{n} = {up}Enum.{lo}_A\n"),
+        "enum-use" => format!("---@type {oup}Enum\nlocal {lo}_eu{n} = {oup}Enum.{olo}_B\n---@param e {oup}Enum\nlocal function {lo}_ef{n}(e) return e end\n"),
+        "operator" => format!("---@class {up}Vec{n}\n---@operator add({up}Vec{n}): {up}Vec{n}\n---@operator unm: {up}Vec{n}\n---@operator call(integer): string\n---@field {lo}_vx number\n---@type {up}Vec{n}\nlocal {lo}_v{n}\nlocal {lo}_vs{n} = {lo}_v{n} + {lo}_v{n}\nlocal {lo}_vc{n} = {lo}_v{n}(1)\n"),
+        "diag-next-line" => format!("---@diagnostic disable-next-line: undefined-global\nlocal {lo}_u{n} = {up}_undefined_{n}\n"),
+        "diag-disable-block" => format!("---@diagnostic disable: undefined-global\nlocal {lo}_ub{n} = {up}_undefined_b{n}\n---@diagnostic enable: undefined-global\n"),
+        "bad-type" => format!("---@type integer\nlocal {lo}_bad{n} = \"str\"\n"),
+        "undefined" => format!("local {lo}_ud{n} = {up}_nowhere{n} + 1\nlocal {lo}_uf{n} = {lo}_ud{n}.nofield\n"),
+        "generic-class" => format!("---@class {up}Box<T>\n---@field {lo}_value T\n---@type {up}Box<{}>\nlocal {lo}_box{n}\nlocal {lo}_bv{n} = {lo}_box{n}.{lo}_value\n", rng.pick(&["integer", "string"])),
+        "deprecated" => format!("--- old function of {lo} #{lo}#\n---@deprecated use {up}_fn\n---@see {up}_fn\n---@version >5.1\nfunction {up}_old{n}() end\n{oup}_old{n}()\n"),
+        "overload" => format!("---@overload fun(a: string): integer\n---@param a integer\n---@return boolean\nfunction {up}_ov{n}(a) return true end\nlocal {lo}_ovr{n} = {up}_ov{n}(\"x\")\n"),
+        "table-global" => format!("--- table {up}_T of {lo} #{lo}#\n{up}_T = {{ {lo}_k = 1 }}\n{up}_T.{lo}_k2 = \"x\"\nfunction {up}_T.{lo}_tf(a) return a end\nlocal {lo}_tk{n} = {up}_T.{lo}_k\n"),
+        "table-extend" => format!("{oup}_T.{lo}_ext{n} = {}\nlocal {lo}_te{n} = {oup}_T.{olo}_k2\n", lit(rng)),
+        "control-flow" => format!(
+            "local function {lo}_cf{n}(p)\n  local acc = 0\n  for i = 1, 3 do\n    if type(p) == \"string\" then acc = acc + #p elseif p then acc = acc + i end\n  end\n  while acc > 10 do acc = acc - 1 end\n  return acc, function() return p end\nend\nlocal {lo}_cfr{n} = {lo}_cf{n}({})\n",
+            lit(rng)
+        ),
+        "setmetatable" => format!("local {lo}_mt{n} = setmetatable({{ {lo}_own{n} = 1 }}, {{ __index = {oup}Cls }})\nlocal {lo}_mtx{n} = {lo}_mt{n}.{olo}_a\n"),
+        "type-other-field" => format!("---@class {up}Holder{n}\n---@field {lo}_ref {oup}Cls\n---@field {lo}_al {oup}Alias\n---@field {lo}_en {oup}Enum\n---@type {up}Holder{n}\nlocal {lo}_h{n}\nlocal {lo}_hx{n} = {lo}_h{n}.{lo}_ref.{olo}_a\n"),
+        "version-syntax" => format!("local {lo}_c{n} <const> = 1\nlocal {lo}_d{n} = 7 // 2\nlocal {lo}_b{n} = 5 & 3\n"),
+        _ => format!("local {lo}_misc{n} = {}\n", lit(rng)),
+    };
+    Chunk { kind: kind.to_string(), text }
+}
+
+/// The trailing chunk that makes a file a module (or not).
+fn module_tail(rng: &mut Rng, g: &GenCtx, me: usize) -> Option<Chunk> {
+    let up = g.markers[me].clone();
+    let lo = up.to_lowercase();
+    let text = match rng.below(5) {
+        0 => return None,
+        1 => format!("return {{ {lo}_val = {}, {lo}_fn = function() return 1 end }}\n", lit(rng)),
+        2 => format!("---@class {up}Mod\nlocal {lo}_M = {{}}\n{lo}_M.{lo}_val = {}\nfunction {lo}_M.{lo}_mf() return {lo}_M.{lo}_val end\nreturn {lo}_M\n", lit(rng)),
+        3 => format!("local {lo}_M = {{}}\n{lo}_M.{lo}_val = {}\nreturn {lo}_M\n", lit(rng)),
+        _ => format!("---@export\nlocal {lo}_E = {{ {lo}_val = 1 }}\nreturn {lo}_E\n"),
+    };
+    Some(Chunk { kind: "module-return".into(), text })
+}
+
+/// Order-sensitive constructs get extra weight when `order_bias` is set (C11 workloads).
+fn pick_kind(rng: &mut Rng, order_bias: bool) -> &'static str {
+    const ORDER: &[&str] = &["global-conflict", "global-read", "class-shared", "class-shared-global", "use-shared", "alias-shared", "require", "call-other", "use-class", "table-extend", "enum-use", "class-sub"];
+    if order_bias && rng.chance(3, 5) || rng.chance(1, 3) {
+        rng.pick(ORDER)
+    } else {
+        rng.pick(KINDS)
+    }
+}
+
+pub struct GenOpts {
+    pub min_files: usize,
+    pub max_files: usize,
+    pub max_chunks: usize,
+    pub order_bias: bool,
+}
+
+impl Default for GenOpts {
+    fn default() -> Self {
+        GenOpts { min_files: 2, max_files: 8, max_chunks: 7, order_bias: false }
+    }
+}
+
+pub fn gen_workspace(rng: &mut Rng, o: &GenOpts) -> Workspace {
+    let nfiles = rng.range(o.min_files, o.max_files);
+    let library = rng.chance(1, 3);
+    let config = if rng.chance(2, 3) { 0 } else { rng.below(N_CONFIGS) };
+    let mut markers = Vec::new();
+    let mut modules = Vec::new();
+    let mut paths = Vec::new();
+    let mut roots = Vec::new();
+    for i in 0..nfiles {
+        let up = format!("F{i}");
+        let lo = up.to_lowercase();
+        let in_lib = library && i > 0 && (i == nfiles - 1 || rng.chance(1, 5));
+        let (module, rel) = match rng.below(5) {
+            0 => (lo.clone(), format!("{lo}.lua")),
+            1 => (format!("pkg.{lo}"), format!("pkg/{lo}.lua")),
+            2 => (format!("pkg.{lo}"), format!("pkg/{lo}/init.lua")),
+            3 => (format!("pkg.sub.{lo}"), format!("pkg/sub/{lo}.lua")),
+            _ => (format!("deep.{lo}.mod"), format!("deep/{lo}/mod.lua")),
+        };
+        markers.push(up);
+        modules.push(module);
+        roots.push(if in_lib { 1 } else { 0 });
+        paths.push(format!("{}/{rel}", if in_lib { "lib" } else { "main" }));
+    }
+    let g = GenCtx { markers: markers.clone(), modules: modules.clone(), in_lib: roots.iter().map(|r| *r == 1).collect() };
+    let mut files = Vec::new();
+    for i in 0..nfiles {
+        let mut chunks = Vec::new();
+        let mut n = 0usize;
+        if rng.chance(1, 6) {
+            let t = if rng.bool() { "---@meta\n".to_string() } else { format!("---@meta {}\n", modules[i]) };
+            chunks.push(Chunk { kind: "meta".into(), text: t });
+        }
+        // every file offers its small "API" with good probability so that cross-file uses resolve
+        for k in ["class-own", "class-method", "func-own", "global-own", "table-global", "enum-own", "alias-own"] {
+            if rng.chance(1, 2) {
+                chunks.push(chunk(rng, &g, i, n, k));
+                n += 1;
+            }
+        }
+        let extra = rng.range(1, o.max_chunks);
+        for _ in 0..extra {
+            let k = pick_kind(rng, o.order_bias);
+            chunks.push(chunk(rng, &g, i, n, k));
+            n += 1;
+        }
+        // keep a leading meta chunk first, shuffle the rest lightly (uses may precede definitions)
+        let start = if chunks.first().map(|c| c.kind == "meta").unwrap_or(false) { 1 } else { 0 };
+        if rng.chance(1, 2) {
+            rng.shuffle(&mut chunks[start..]);
+        }
+        if let Some(t) = module_tail(rng, &g, i) {
+            chunks.push(t);
+        }
+        files.push(GenFile { path: paths[i].clone(), root: roots[i], marker: markers[i].clone(), module: modules[i].clone(), chunks });
+    }
+    Workspace { files, library, config }
+}
+
+/// An edited version of `chunks` (never equal to the original text).
+pub fn edit_chunks(rng: &mut Rng, ws: &Workspace, file: usize, chunks: &[Chunk]) -> Vec<Chunk> {
+    let g = GenCtx { markers: ws.files.iter().map(|f| f.marker.clone()).collect(), modules: ws.files.iter().map(|f| f.module.clone()).collect(), in_lib: ws.files.iter().map(|f| f.root == 1).collect() };
+    let mut out = chunks.to_vec();
+    let n_base = 100 + rng.below(800);
+    let has_tail = out.last().map(|c| c.kind == "module-return").unwrap_or(false);
+    let body_len = if has_tail { out.len() - 1 } else { out.len() };
+    let start = if out.first().map(|c| c.kind == "meta").unwrap_or(false) { 1 } else { 0 };
+    for round in 0..rng.range(1, 3) {
+        match rng.below(6) {
+            0 | 1 => {
+                let k = pick_kind(rng, false);
+                let pos = rng.range(start, body_len.min(out.len()));
+                out.insert(pos.min(out.len()), chunk(rng, &g, file, n_base + round, k));
+            }
+            2 | 3 => {
+                if out.len() > start {
+                    let pos = rng.range(start, out.len() - 1);
+                    out.remove(pos);
+                }
+            }
+            4 => {
+                if out.len() > start {
+                    let pos = rng.range(start, out.len() - 1);
+                    let k = out[pos].kind.clone();
+                    if k != "meta" && k != "module-return" {
+                        out[pos] = chunk(rng, &g, file, n_base + 10 + round, &k);
+                    }
+                }
+            }
+            _ => {
+                // a half-typed line, as happens while editing
+                let pos = rng.range(start, out.len());
+                out.insert(pos.min(out.len()), Chunk { kind: "broken".into(), text: rng.pick(&["local = \n", "---@class\n", "function (\n", "x.y. = 1\n", "---@type\n"]).to_string() });
+            }
+        }
+    }
+    if chunks_text(&out) == chunks_text(chunks) {
+        out.push(Chunk { kind: "broken".into(), text: "local\n".into() });
+    }
+    out
+}
+
+/// Which families of steps a history may contain.
+#[derive(Clone, Copy, Debug, PartialEq, Eq)]
+pub enum HistoryKind {
+    /// only state-preserving steps: re-submit, batch re-submit, edit-then-restore (C08)
+    Preserving,
+    /// everything (C09)
+    Full,
+}
+
+pub fn gen_history(rng: &mut Rng, ws: &Workspace, kind: HistoryKind, max_steps: usize) -> Vec<Step> {
+    let nsteps = rng.range(1, max_steps.max(1));
+    let mut m = Model::new(ws);
+    let mut steps = Vec::new();
+    let nf = ws.files.len();
+    for _ in 0..nsteps {
+        let present: Vec<usize> = (0..nf).filter(|i| m.present(*i)).collect();
+        let removed: Vec<usize> = (0..nf).filter(|i| !m.present(*i)).collect();
+        let roll = match kind {
+            HistoryKind::Preserving => rng.below(50),
+            HistoryKind::Full => rng.below(100),
+        };
+        let step = match roll {
+            0..=19 if !present.is_empty() => Step::Resubmit { file: rng.pick(&present) },
+            20..=29 if !present.is_empty() => {
+                let mut fs = present.clone();
+                rng.shuffle(&mut fs);
+                fs.truncate(rng.range(1, fs.len()));
+                if rng.chance(1, 4) {
+                    let d = fs[0];
+                    fs.push(d); // the same file twice in one batch
+                }
+                Step::BatchResubmit { files: fs }
+            }
+            30..=49 if !present.is_empty() => {
+                let f = rng.pick(&present);
+                let cur = m.cur[f].clone().unwrap_or_default();
+                Step::EditRestore { file: f, edited: edit_chunks(rng, ws, f, &cur) }
+            }
+            50..=69 if !present.is_empty() => {
+                let f = rng.pick(&present);
+                let cur = m.cur[f].clone().unwrap_or_default();
+                Step::Update { file: f, chunks: edit_chunks(rng, ws, f, &cur) }
+            }
+            70..=81 if present.len() > 1 => Step::Remove { file: rng.pick(&present), by_none: rng.chance(1, 4) },
+            82..=89 if !removed.is_empty() => Step::ReAdd { file: rng.pick(&removed) },
+            90..=93 => Step::Reindex,
+            94..=95 => Step::Config { variant: rng.below(N_CONFIGS) },
+            96..=99 => Step::ConfigReload { variant: rng.below(N_CONFIGS) },
+            _ => {
+                if let Some(f) = present.first() {
+                    Step::Resubmit { file: *f }
+                } else {
+                    Step::Reindex
+                }
+            }
+        };
+        // keep the model in step (without an analysis)
+        match &step {
+            Step::Update { file, chunks } => m.cur[*file] = Some(chunks.clone()),
+            Step::Remove { file, .. } => m.cur[*file] = None,
+            Step::ReAdd { file } => m.cur[*file] = Some(ws.files[*file].chunks.clone()),
+            Step::Config { variant } | Step::ConfigReload { variant } => m.config = *variant,
+            _ => {}
+        }
+        steps.push(step);
+    }
+    steps
+}
+
+// ───────────────────────── shrinking helpers ─────────────────────────
+
+/// Flattened view of a workspace for delta debugging: (file index, chunk).
+pub fn flatten(ws: &Workspace) -> Vec<(usize, Chunk)> {
+    ws.files.iter().enumerate().flat_map(|(i, f)| f.chunks.iter().cloned().map(move |c| (i, c))).collect()
+}
+
+/// Rebuilds a workspace from a subset of `flatten` (files keep their paths; empty files stay
+/// registered with empty text so that file indices — and thus history steps — stay valid).
+pub fn unflatten(ws: &Workspace, parts: &[(usize, Chunk)]) -> Workspace {
+    let mut out = ws.clone();
+    for f in &mut out.files {
+        f.chunks.clear();
+    }
+    for (i, c) in parts {
+        out.files[*i].chunks.push(c.clone());
+    }
+    out
+}
+
+/// Splits every chunk into one chunk per line (same kind) — second shrinking pass.
+pub fn split_lines(ws: &Workspace) -> Workspace {
+    let mut out = ws.clone();
+    for f in &mut out.files {
+        let mut v = Vec::new();
+        for c in &f.chunks {
+            for l in c.text.lines() {
+                v.push(Chunk { kind: c.kind.clone(), text: format!("{l}\n") });
+            }
+        }
+        f.chunks = v;
+    }
+    out
+}
+
+/// Drops the files whose index is not in `keep` and renumbers history steps accordingly.
+pub fn restrict_files(ws: &Workspace, steps: &[Step], keep: &[usize]) -> (Workspace, Vec<Step>) {
+    let mut map = vec![usize::MAX; ws.files.len()];
+    let mut out = ws.clone();
+    out.files.clear();
+    for (new, old) in keep.iter().enumerate() {
+        map[*old] = new;
+        out.files.push(ws.files[*old].clone());
+    }
+    let mut st = Vec::new();
+    for s in steps {
+        let ns = match s {
+            Step::Resubmit { file } if map[*file] != usize::MAX => Some(Step::Resubmit { file: map[*file] }),
+            Step::BatchResubmit { files } => {
+                let fs: Vec<usize> = files.iter().filter(|f| map[**f] != usize::MAX).map(|f| map[*f]).collect();
+                if fs.is_empty() { None } else { Some(Step::BatchResubmit { files: fs }) }
+            }
+            Step::EditRestore { file, edited } if map[*file] != usize::MAX => Some(Step::EditRestore { file: map[*file], edited: edited.clone() }),
+            Step::Update { file, chunks } if map[*file] != usize::MAX => Some(Step::Update { file: map[*file], chunks: chunks.clone() }),
+            Step::Remove { file, by_none } if map[*file] != usize::MAX => Some(Step::Remove { file: map[*file], by_none: *by_none }),
+            Step::ReAdd { file } if map[*file] != usize::MAX => Some(Step::ReAdd { file: map[*file] }),
+            Step::Reindex => Some(Step::Reindex),
+            Step::Config { variant } => Some(Step::Config { variant: *variant }),
+            Step::ConfigReload { variant } => Some(Step::ConfigReload { variant: *variant }),
+            _ => None,
+        };
+        if let Some(ns) = ns {
+            st.push(ns);
+        }
+    }
+    (out, st)
+}
+
+// ───────────────────────── cases (workspace + history) ─────────────────────────
+
+/// How the initial, consistent analysis of a case is produced.
+#[derive(Clone, Copy, Debug, Serialize, Deserialize, PartialEq, Eq)]
+pub enum Setup {
+    /// batch analysis in file-id order
+    Sorted,
+    /// files opened one by one, then `reindex()`
+    OneByOneReindex,
+    /// production batch update, then `reindex()`
+    ProductionReindex,
+    /// files opened one by one, no reindex (an editor session; not a "consistent" start for C08)
+    OneByOne,
+}
+
+impl Setup {
+    pub fn name(&self) -> &'static str {
+        match self {
+            Setup::Sorted => "sorted",
+            Setup::OneByOneReindex => "one-by-one+reindex",
+            Setup::ProductionReindex => "production+reindex",
+            Setup::OneByOne => "one-by-one",
+        }
+    }
+}
+
+#[derive(Clone, Debug, Serialize, Deserialize, PartialEq, Eq)]
+pub struct Case {
+    pub ws: Workspace,
+    pub setup: Setup,
+    pub steps: Vec<Step>,
+}
+
+impl Case {
+    pub fn start(&self) -> EmmyLuaAnalysis {
+        match self.setup {
+            Setup::Sorted => self.ws.build(Load::Sorted),
+            Setup::OneByOne => self.ws.build(Load::OneByOne),
+            Setup::OneByOneReindex => {
+                let mut a = self.ws.build(Load::OneByOne);
+                a.reindex();
+                a
+            }
+            Setup::ProductionReindex => {
+                let mut a = self.ws.build(Load::Production);
+                a.reindex();
+                a
+            }
+        }
+    }
+    pub fn to_json(&self) -> serde_json::Value {
+        serde_json::to_value(self).expect("case serialises")
+    }
+    pub fn from_json(v: &serde_json::Value) -> Option<Case> {
+        serde_json::from_value(v.clone()).ok()
+    }
+    pub fn fingerprint(&self) -> u64 {
+        let s = serde_json::to_string(&self.steps).unwrap_or_default();
+        crate::rng::mix(self.ws.fingerprint(), crate::rng::fnv(s.as_bytes()) ^ self.setup as u64)
+    }
+    /// sorted, de-duplicated kinds of the steps (for signatures)
+    pub fn step_kinds(&self) -> Vec<String> {
+        let mut k: Vec<String> = self.steps.iter().map(|s| s.kind().to_string()).collect();
+        k.sort();
+        k.dedup();
+        k
+    }
+    /// constructs of the workspace and of the texts submitted by history steps
+    pub fn kinds(&self) -> Vec<String> {
+        let mut k = self.ws.kinds();
+        for s in &self.steps {
+            match s {
+                Step::EditRestore { edited: c, .. } | Step::Update { chunks: c, .. } => k.extend(c.iter().map(|c| c.kind.clone())),
+                _ => {}
+            }
+        }
+        k.sort();
+        k.dedup();
+        k
+    }
+    pub fn describe(&self) -> String {
+        let mut s = format!("setup={} config={} library={}\n", self.setup.name(), config_name(self.ws.config), self.ws.library);
+        for f in &self.ws.files {
+            s.push_str(&format!("-- {} --\n{}", f.path, f.text()));
+        }
+        for (i, st) in self.steps.iter().enumerate() {
+            match st {
+                Step::EditRestore { file, edited } => s.push_str(&format!("step {i}: edit-restore {} with edited text:\n{}", self.ws.files[*file].path, chunks_text(edited))),
+                Step::Update { file, chunks } => s.push_str(&format!("step {i}: update {} to:\n{}", self.ws.files[*file].path, chunks_text(chunks))),
+                other => s.push_str(&format!("step {i}: {}\n", serde_json::to_string(other).unwrap_or_default())),
+            }
+        }
+        s
+    }
+}
+
+/// Shrinks a failing case: over files, then chunks, then lines, then history steps (and the
+/// texts inside steps), then configuration. `fails` must be (as good as) deterministic; it is
+/// called at most `budget` times.
+pub fn shrink_case(case: &Case, budget: usize, fails: &mut dyn FnMut(&Case) -> bool) -> Case {
+    shrink_case_mode(case, budget, false, fails)
+}
+
+/// `steps_only`: shrink and canonicalise the history only (enough for the signature; used when
+/// the same clause has already produced fully shrunk witnesses).
+pub fn shrink_case_mode(case: &Case, budget: usize, steps_only: bool, fails: &mut dyn FnMut(&Case) -> bool) -> Case {
+    let mut cur = case.clone();
+    let mut left = budget;
+    let mut test = |c: &Case, left: &mut usize| -> bool {
+        if *left == 0 {
+            return false;
+        }
+        *left -= 1;
+        fails(c)
+    };
+
+    // 0. history steps first pass (cheap, makes everything after cheaper)
+    if cur.steps.len() > 1 {
+        let base = cur.clone();
+        let steps = crate::util::ddmin(
+            cur.steps.clone(),
+            |s| {
+                let mut c = base.clone();
+                c.steps = s.to_vec();
+                test(&c, &mut left)
+            },
+            120,
+        );
+        cur.steps = steps;
+    }
+    // 1. files
+    if !steps_only && cur.ws.files.len() > 1 {
+        let base = cur.clone();
+        let idx: Vec<usize> = (0..cur.ws.files.len()).collect();
+        let keep = crate::util::ddmin(
+            idx,
+            |keep| {
+                let (ws, steps) = restrict_files(&base.ws, &base.steps, keep);
+                test(&Case { ws, setup: base.setup, steps }, &mut left)
+            },
+            60,
+        );
+        if keep.len() < cur.ws.files.len() {
+            let (ws, steps) = restrict_files(&cur.ws, &cur.steps, &keep);
+            cur = Case { ws, setup: cur.setup, steps };
+        }
+    }
+    // 2. chunks, 3. lines
+    for pass in 0..2 {
+        if steps_only {
+            break;
+        }
+        if pass == 1 {
+            let split = Case { ws: split_lines(&cur.ws), setup: cur.setup, steps: cur.steps.clone() };
+            if !test(&split, &mut left) {
+                break;
+            }
+            cur = split;
+        }
+        let base = cur.clone();
+        let parts = flatten(&cur.ws);
+        if parts.len() > 1 {
+            let small = crate::util::ddmin(
+                parts,
+                |p| {
+                    let mut c = base.clone();
+                    c.ws = unflatten(&base.ws, p);
+                    test(&c, &mut left)
+                },
+                400,
+            );
+            cur.ws = unflatten(&cur.ws, &small);
+        }
+        // ddmin never tries the empty list
+        if !flatten(&cur.ws).is_empty() {
+            let mut c = cur.clone();
+            c.ws = unflatten(&cur.ws, &[]);
+            if test(&c, &mut left) {
+                cur = c;
+            }
+        }
+    }
+    // 4. history steps again, then the texts carried by steps
+    if cur.steps.len() > 1 {
+        let base = cur.clone();
+        cur.steps = crate::util::ddmin(
+            cur.steps.clone(),
+            |s| {
+                let mut c = base.clone();
+                c.steps = s.to_vec();
+                test(&c, &mut left)
+            },
+            60,
+        );
+    }
+    if !cur.steps.is_empty() {
+        let mut c = cur.clone();
+        c.steps.clear();
+        if test(&c, &mut left) {
+            cur = c;
+        }
+    }
+    // canonical step forms: a plain re-submission of one file is the simplest trigger
+    for i in 0..cur.steps.len() {
+        let cands: Vec<Step> = match &cur.steps[i] {
+            Step::EditRestore { file, .. } => vec![Step::Resubmit { file: *file }],
+            Step::BatchResubmit { files } => {
+                let mut u = files.clone();
+                u.sort();
+                u.dedup();
+                u.into_iter().map(|f| Step::Resubmit { file: f }).collect()
+            }
+            Step::Remove { file, by_none: true } => vec![Step::Remove { file: *file, by_none: false }],
+            _ => vec![],
+        };
+        for cand in cands {
+            let mut c = cur.clone();
+            c.steps[i] = cand;
+            if test(&c, &mut left) {
+                cur = c;
+                break;
+            }
+        }
+    }
+    for i in 0..cur.steps.len() {
+        if steps_only {
+            break;
+        }
+        let chunks = match &cur.steps[i] {
+            Step::EditRestore { edited, .. } => edited.clone(),
+            Step::Update { chunks, .. } => chunks.clone(),
+            _ => continue,
+        };
+        let mut lines = Vec::new();
+        for c in &chunks {
+            for l in c.text.lines() {
+                lines.push(Chunk { kind: c.kind.clone(), text: format!("{l}\n") });
+            }
+        }
+        let base = cur.clone();
+        let set = |c: &mut Case, v: Vec<Chunk>| match &mut c.steps[i] {
+            Step::EditRestore { edited, .. } => *edited = v,
+            Step::Update { chunks, .. } => *chunks = v,
+            _ => {}
+        };
+        // empty text first
+        let mut c = base.clone();
+        set(&mut c, Vec::new());
+        if test(&c, &mut left) {
+            cur = c;
+            continue;
+        }
+        if lines.len() > 1 {
+            let small = crate::util::ddmin(
+                lines,
+                |p| {
+                    let mut c = base.clone();
+                    set(&mut c, p.to_vec());
+                    test(&c, &mut left)
+                },
+                60,
+            );
+            set(&mut cur, small);
+        }
+    }
+    if steps_only {
+        return cur;
+    }
+    // 5. configuration, library root, setup
+    if cur.ws.config != 0 {
+        let mut c = cur.clone();
+        c.ws.config = 0;
+        if test(&c, &mut left) {
+            cur = c;
+        }
+    }
+    if cur.ws.library && cur.ws.files.iter().all(|f| f.root == 0) {
+        let mut c = cur.clone();
+        c.ws.library = false;
+        if test(&c, &mut left) {
+            cur = c;
+        }
+    }
+    if cur.setup != Setup::Sorted {
+        let mut c = cur.clone();
+        c.setup = Setup::Sorted;
+        if test(&c, &mut left) {
+            cur = c;
+        }
+    }
+    // drop files that ended up empty and are not touched by any step
+    let touched: std::collections::BTreeSet<usize> = cur
+        .steps
+        .iter()
+        .flat_map(|s| match s {
+            Step::Resubmit { file } | Step::EditRestore { file, .. } | Step::Update { file, .. } | Step::Remove { file, .. } | Step::ReAdd { file } => vec![*file],
+            Step::BatchResubmit { files } => files.clone(),
+            _ => vec![],
+        })
+        .collect();
+    let keep: Vec<usize> = (0..cur.ws.files.len()).filter(|i| !cur.ws.files[*i].chunks.is_empty() || touched.contains(i)).collect();
+    if keep.len() < cur.ws.files.len() && !keep.is_empty() {
+        let (ws, steps) = restrict_files(&cur.ws, &cur.steps, &keep);
+        let c = Case { ws, setup: cur.setup, steps };
+        if test(&c, &mut left) {
+            cur = c;
+        }
+    }
+    cur
+}
+
+/// Two fresh deterministic analyses of the same file list must give the same dump, otherwise
+/// the case is C11 territory and C08–C10 do not judge it. Returns the dump when stable.
+pub fn stable_dump(build: &dyn Fn() -> EmmyLuaAnalysis, samples: usize) -> Option<serde_json::Value> {
+    let first = crate::observe::observe(&build());
+    for _ in 1..samples.max(2) {
+        let other = crate::observe::observe(&build());
+        if other != first {
+            return None;
+        }
+    }
+    Some(first)
+}
+
+
+// ───────────────────────── structural line shapes (signatures) ─────────────────────────
+
+fn rhs_shape(r: &str) -> &'static str {
+    let r = r.trim();
+    if r.starts_with('{') {
+        "table"
+    } else if r.starts_with("function") {
+        "closure"
+    } else if r.starts_with('"') || r.starts_with('\'') {
+        "str"
+    } else if r.starts_with(|c: char| c.is_ascii_digit()) {
+        "num"
+    } else if r == "nil" || r == "true" || r == "false" {
+        "const"
+    } else if r.starts_with("setmetatable") {
+        "setmetatable"
+    } else if r.starts_with("require") {
+        "require"
+    } else {
+        let ident_end = r.find(|c: char| !(c.is_ascii_alphanumeric() || c == '_' || c == '.' || c == ':')).unwrap_or(r.len());
+        let (head, rest) = r.split_at(ident_end);
+        if head.is_empty() {
+            "expr"
+        } else if rest.trim_start().starts_with('(') {
+            "call"
+        } else if !rest.trim().is_empty() {
+            "expr"
+        } else if head.contains('.') {
+            "index"
+        } else {
+            "name"
+        }
+    }
+}
+
+/// Identifier-free shape of one source line, e.g. `@class`, `desc`, `func`, `global=table`.
+pub fn line_shape(line: &str) -> String {
+    let t = line.trim();
+    if t.is_empty() {
+        return "blank".into();
+    }
+    if let Some(rest) = t.strip_prefix("---@") {
+        let tag: String = rest.chars().take_while(|c| c.is_ascii_alphabetic()).collect();
+        return format!("@{tag}");
+    }
+    if t.starts_with("--") {
+        return "desc".into();
+    }
+    if t.starts_with("local function") || t.starts_with("function") {
+        return "func".into();
+    }
+    if t.starts_with("return") {
+        return "return".into();
+    }
+    for kw in ["for ", "if ", "while ", "end", "}", "repeat", "until", "else", "do"] {
+        if t.starts_with(kw) {
+            return "ctl".into();
+        }
+    }
+    if let Some(rest) = t.strip_prefix("local ") {
+        return match rest.find('=') {
+            Some(i) => format!("local={}", rhs_shape(&rest[i + 1..])),
+            None => "local".into(),
+        };
+    }
+    if let Some(i) = t.find('=') {
+        let lhs = t[..i].trim();
+        if !lhs.is_empty() && lhs.chars().all(|c| c.is_ascii_alphanumeric() || c == '_' || c == '.') {
+            let k = if lhs.contains('.') { "index" } else { "global" };
+            return format!("{k}={}", rhs_shape(&t[i + 1..]));
+        }
+    }
+    if t.ends_with(')') {
+        return "call".into();
+    }
+    "other".into()
+}
+
+impl Case {
+    /// sorted, de-duplicated line shapes of everything the case still contains
+    pub fn shapes(&self) -> Vec<String> {
+        let mut v: Vec<String> = Vec::new();
+        for f in &self.ws.files {
+            for c in &f.chunks {
+                v.extend(c.text.lines().map(line_shape));
+            }
+        }
+        for s in &self.steps {
+            match s {
+                Step::EditRestore { edited: c, .. } | Step::Update { chunks: c, .. } => {
+                    for c in c {
+                        v.extend(c.text.lines().map(line_shape));
+                    }
+                }
+                _ => {}
+            }
+        }
+        v.retain(|s| s != "blank");
+        v.sort();
+        v.dedup();
+        v
+    }
+}
+
+
+impl Case {
+    /// Number of files that declare the type `name` (`---@class|alias|enum name`) in their
+    /// current text or in a text a history step submits for them.
+    pub fn files_declaring_type(&self, name: &str) -> usize {
+        fn declares(text: &str, name: &str) -> bool {
+            text.lines().any(|l| {
+                let t = l.trim_start();
+                (t.starts_with("---@class") || t.starts_with("---@alias") || t.starts_with("---@enum"))
+                    && t.split(|c: char| !(c.is_ascii_alphanumeric() || c == '_' || c == '.')).any(|w| w == name)
+            })
+        }
+        let mut n = 0;
+        for (i, f) in self.ws.files.iter().enumerate() {
+            let mut d = declares(&f.text(), name);
+            for s in &self.steps {
+                match s {
+                    Step::EditRestore { file, edited: c } | Step::Update { file, chunks: c } if *file == i => d = d || declares(&chunks_text(c), name),
+                    _ => {}
+                }
+            }
+            if d {
+                n += 1;
+            }
+        }
+        n
+    }
+}
